@@ -1,5 +1,5 @@
 (* Model of the gRPC query handlers of the three ecocredit query services (property C17) over the
-   ledger state model.  Model file: executable definitions only (proofs are in QueriesProps.v).
+   ledger state model, and (last section) of the x/data query service over the data state model.  Model file: executable definitions only (proofs are in QueriesProps.v).
 
    Transcribed from
      /repo/x/ecocredit/base/keeper/query_*.go          regen.ecocredit.v1.Query
